@@ -33,11 +33,11 @@ fn timestamp_to_epoch<V: ValT>(ts: Timestamp, frac: bool) -> ValR<V> {
 
 fn array_to_datetime<V: ValT>(v: &[V]) -> Option<Result<DateTime, jiff::Error>> {
     let [year, month, day, hour, min, sec]: &[V; 6] = v.get(..6)?.try_into().ok()?;
-    let sec = sec.as_f64()?;
+    let sec = sec.as_f64().filter(|sec| sec.is_finite())?;
     let i8 = |v: &V| -> Option<i8> { v.as_isize()?.try_into().ok() };
     Some(DateTime::new(
         year.as_isize()?.try_into().ok()?,
-        i8(month)? + 1,
+        i8(month)?.checked_add(1)?,
         i8(day)?,
         i8(hour)?,
         i8(min)?,
